@@ -43,7 +43,45 @@ BOUNDS = {
 
 
 def shards(tier, seed):
-    return traces.make_shards(BOUNDS[tier], 2500 if tier == 'quick' else 20000)
+    out = traces.make_shards(BOUNDS[tier], 2500 if tier == 'quick' else 20000)
+    for L in (130, 300) if tier == 'quick' else (130, 300, 33000):
+        out.append({'long': True, 'L': L})
+    # end to end: the event table that comes with real site states (incl. overlapping site spheres, inner fraction 0.5)
+    out.append({'e2e': True, 'tier': tier, 'seed': seed})
+    return out
+
+
+def run_long(L, res):
+    """Histories longer than 127 / 32767 frames with the states held as int8 / int16 / int64 arrays."""
+    from gemdat.utils import bfill, ffill
+
+    pattern = [0, 1, 1, 0, 0, 3, 0, 1, 3, 3, 0, 0, 0, 1]
+    trace = [[pattern[(t * (1 + t // 97)) % len(pattern)]] for t in range(L)]
+    rp, rn = hop.prev_next(trace)
+    o, i = hop.state_arrays(trace)
+    for dt in (np.int8, np.int16, np.int64):
+        if L > 32767 and dt == np.int8:
+            continue
+        case = {'long_L': L, 'dtype': np.dtype(dt).name}
+        st = np.array(o, dtype=dt)
+        res.evals += 1
+        res.traces += 1
+        try:
+            df = impl.real_events(trace)
+            from gemdat.transitions import Transitions
+
+            tr = Transitions(trajectory=None, diff_trajectory=None, sites=impl.dummy_sites(2), events=df, states=st, inner_states=np.array(i, dtype=dt))
+            p, n = np.asarray(tr.states_prev()), np.asarray(tr.states_next())
+            if not np.array_equal(p, np.array(rp)) or not np.array_equal(n, np.array(rn)):
+                res.violation('states-prev-next-wrong-for-long-history', case, f'first mismatch at frame {int(np.argmax(p[:, 0] != np.array(rp)[:, 0]))}')
+            a = st.T.copy()
+            if not np.array_equal(ffill(a, fill_val=-1), np.array(rp).T) or not np.array_equal(bfill(a, fill_val=-1), np.array(rn).T):
+                res.violation('ffill-bfill-wrong-for-long-rows', case, '')
+            res.outcome(('long', L, np.dtype(dt).name, int(p.sum())))
+        except Exception as e:  # noqa: BLE001
+            res.violation(f'long-history-raise-{type(e).__name__}', case, str(e))
+    res.states += L
+    res.transitions += L
 
 
 def check_trace(trace, S, res: Result | None = None):
@@ -124,6 +162,32 @@ def check_trace(trace, S, res: Result | None = None):
 
 def run_shard(shard) -> Result:
     res = Result()
+    if shard.get('e2e'):
+        from . import c02
+
+        n = 0
+        for sc in c02.scenarios(shard['tier'], shard['seed']):
+            if sc['mode'] not in ('float-overlap', 'dict-different') or sc['f'] != 0.5 or sc['layout'] != 0:
+                continue
+            try:
+                viols = c02.eval_scenario(sc)[0]
+            except Exception:  # noqa: BLE001
+                continue
+            n += 1
+            res.evals += 1
+            res.traces += 1
+            res.outcome(('e2e', sc['lat'], sc['mode'], n))
+            for kind, detail in viols:
+                if kind.startswith('events-'):
+                    res.violation(kind, {'e2e_scenario': sc}, detail)
+        res.states += n
+        res.transitions += n
+        res.sample({'end_to_end_scenarios': n})
+        return res
+    if shard.get('long'):
+        run_long(shard['L'], res)
+        res.sample({'long_history_frames': shard['L'], 'dtypes': ['int8', 'int16', 'int64']})
+        return res
     S = shard['S']
     impl.clear_weak_caches()
     for n, trace in enumerate(traces.iter_shard(shard)):
@@ -144,5 +208,13 @@ def run_shard(shard) -> Result:
 
 
 def replay(case):
+    if 'e2e_scenario' in case:
+        from . import c02
+
+        return [{'kind': k, 'detail': d} for k, d in c02.eval_scenario(case['e2e_scenario'])[0] if k.startswith('events-')]
+    if 'long_L' in case:
+        r = Result()
+        run_long(case['long_L'], r)
+        return [{'kind': v['kind'], 'detail': v['detail']} for v in r.viols]
     viols, _ = check_trace(case['trace'], case['n_sites'])
     return [{'kind': k, 'detail': d} for k, d in viols]
